@@ -106,3 +106,17 @@ prop("C10", level="proof", bounded=[],
      explanation="bisect-based entity lookup proved for every integer line; entity->scenarios expansion and "
                  "location recording proved; regex/file parsing and name selection are bounded",
      notes=["make_line_data_for (recursion + sorted) and build_feature (set difference) are covered by the bounded stand-in only"])
+
+# -- a new file starts with a clean collector (parse_features calls clear() between files) ---------------------------
+shape("FeatureScenarioLocationCollector", feature="any", filename="any", use_all_scenarios="bool", scenario_lines="set",
+      all_scenarios="any", selected_scenarios="any")
+contract(R + "FeatureScenarioLocationCollector.clear", props=["C10", "C17"], params={"self": "ref:FeatureScenarioLocationCollector"},
+         self_classes=["FeatureScenarioLocationCollector"],
+         modifies=["self.feature", "self.filename", "self.use_all_scenarios", "self.scenario_lines", "self.all_scenarios",
+                   "self.selected_scenarios"],
+         ensures={"nothing-of-the-previous-file-is-kept":
+                  "is_none(self.feature) and is_none(self.filename) and self.use_all_scenarios == False and "
+                  "is_fresh(self.scenario_lines) and len(self.scenario_lines) == 0 and "
+                  "forall_val(lambda x: not has_key(self.scenario_lines, x)) and "
+                  "is_fresh(self.all_scenarios) and len(as_ref(self.all_scenarios, 'set')) == 0 and "
+                  "is_fresh(self.selected_scenarios) and len(as_ref(self.selected_scenarios, 'set')) == 0"})
